@@ -3,14 +3,14 @@ Require Import List NArith ZArith String Bool.
 Require Import KV.Backward.Model KV.Backward.Spec.
 Import ListNotations.
 
+Definition num_of (tbl : list (N * Z)) (c : N) : Z :=
+  match find (fun e => N.eqb (fst e) c) tbl with Some e => snd e | None => 0%Z end.
+
 (* answers of the model: the goal with resolve_term applied, one entry per returned binding map *)
-Definition run_bc (F : list fact) (R : list rule) (q : atom) : list atom := answers F R q.
+Definition run_bc (num : N -> Z) (F : list fact) (R : list rule) (q : atom) : list atom := answers num F R q.
 
 (* function-level stream for the public resolve_term *)
 Definition run_resolve (th : subst) (ts : list term) : list term := map (resolve_term th) ts.
-
-Definition num_of (tbl : list (N * Z)) (c : N) : Z :=
-  match find (fun e => N.eqb (fst e) c) tbl with Some e => snd e | None => 0%Z end.
 
 (* the Spec oracle: every fact of the least model with its least derivation height; the boolean says that the
    fixpoint was reached within the fuel *)
@@ -31,4 +31,4 @@ Definition run_spec (tbl : list (N * Z)) (F : list fact) (R : list rule) (fuel :
 Definition run_classes (R : list rule) : bool * bool := (known_C18 R, safe_rules R).
 
 Definition run_all (tbl : list (N * Z)) (fuel : nat) (F : list fact) (R : list rule) (q : atom) :=
-  (run_bc F R q, run_spec tbl F R fuel, run_classes R, first_fresh_variable_index q).
+  (run_bc (num_of tbl) F R q, run_spec tbl F R fuel, run_classes R, first_fresh_variable_index q).
